@@ -327,7 +327,7 @@ pub fn impl_lex(src: &str, spans: bool) -> String {
     s.push_str(" |");
     for (kind, lo, hi) in &errs {
         match kind.as_str() {
-            "UnrecognizedToken" => s.push_str(&format!(" U/{lo}")),
+            "UnrecognizedToken" => s.push_str(&format!(" U/{lo}/{hi}")),
             "UnrecognizedEscapeSequence" => s.push_str(&format!(" E/{lo}/{hi}")),
             k => s.push_str(&format!(" ?{k}")),
         }
